@@ -123,7 +123,11 @@ func overlayFiles(pkgs []string) (map[string]string, error) {
 			if e.IsDir() || !strings.HasSuffix(e.Name(), ".go") {
 				continue
 			}
-			ov[filepath.Join(repoRoot, pkg, "zz_verif_"+e.Name())] = filepath.Join(dir, e.Name())
+			virt := filepath.Join(repoRoot, pkg, "zz_verif_"+e.Name())
+			if _, skip := skippedOverlay[virt]; skip {
+				continue
+			}
+			ov[virt] = filepath.Join(dir, e.Name())
 		}
 	}
 	return ov, nil
